@@ -2091,6 +2091,43 @@ pub fn decompress_with_limit(
     )
 }
 
+/// Verification hooks (read-only accessors and wrappers around private pure functions).
+/// Compiled only with `--cfg miniz_oxide_verif`.
+#[cfg(miniz_oxide_verif)]
+pub mod verif {
+    use super::*;
+
+    /// Internal registers of the decoder, for coverage measurement and for localising a
+    /// model/implementation disagreement. Never used to decide a property.
+    pub fn state(r: &DecompressorOxide) -> (u8, u32, u64, u32, u32, u8, u8, u8, [u16; 3], u32, u32) {
+        (
+            r.state as u8,
+            r.num_bits,
+            r.bit_buf as u64,
+            r.counter,
+            r.dist,
+            r.num_extra,
+            r.finish,
+            r.block_type,
+            r.table_sizes,
+            r.z_adler32,
+            r.check_adler32,
+        )
+    }
+
+    /// `validate_zlib_header` with the resulting state as its discriminant.
+    pub fn validate_zlib_header(cmf: u32, flg: u32, flags: u32, mask: usize) -> u8 {
+        match super::validate_zlib_header(cmf, flg, flags, mask) {
+            Action::Jump(s) => s as u8,
+            _ => 255,
+        }
+    }
+
+    pub fn num_extra_bits_for_distance_code(code: u8) -> u8 {
+        super::num_extra_bits_for_distance_code(code)
+    }
+}
+
 #[cfg(test)]
 mod test {
     use super::*;
